@@ -12,7 +12,7 @@ case $cmd in
  init)
   mkdir -p $LAB
   [ -d $WT ] || git -C /repo worktree add -q --detach $WT HEAD
-  git -C $WT checkout -q --detach main && git -C $WT reset -q --hard main
+  git -C $WT checkout -q --detach main && git -C $WT reset -q --hard main; git -C $WT clean -fdq
   rsync -a --delete /verif/harness/ $LAB/harness/ --exclude target
   rsync -a /verif/vendor $LAB/ ; rsync -a /verif/witnesses $LAB/ ; cp /verif/known_findings.txt $LAB/
   sed -i "s#path = \"/repo\"#path = \"$WT\"#" $LAB/harness/checks/Cargo.toml $LAB/harness/loomcheck/Cargo.toml
@@ -20,13 +20,13 @@ case $cmd in
   ;;
  run)
   P=$(realpath "$1"); shift
-  git -C $WT reset -q --hard main
+  git -C $WT reset -q --hard main; git -C $WT clean -fdq
   if ! git -C $WT apply "$P" 2>/tmp/mlab.err; then echo "PATCH-DOES-NOT-APPLY $P: $(head -2 /tmp/mlab.err)"; exit 2; fi
   export VERIF_ROOT=$LAB VERIF_REPO=$WT VERIF_BUILD=$LAB/build CARGO_NET_OFFLINE=true
   cd $LAB/harness || exit 2
   need_fast=0; for id in "$@"; do [ "$id" = C19 ] && need_fast=1; done
-  if ! cargo build --release --offline --target-dir $LAB/build/default -p checks -p loomcheck >$LAB/build.log 2>&1; then echo "BUILD-FAILS $(grep -m1 '^error' $LAB/build.log)"; git -C $WT reset -q --hard main; exit 2; fi
-  if [ $need_fast = 1 ]; then cargo build --release --offline --target-dir $LAB/build/fast -p checks --features fast-math >$LAB/build-fast.log 2>&1 || { echo "FAST-BUILD-FAILS"; git -C $WT reset -q --hard main; exit 2; }; fi
+  if ! cargo build --release --offline --target-dir $LAB/build/default -p checks -p loomcheck >$LAB/build.log 2>&1; then echo "BUILD-FAILS $(grep -m1 '^error' $LAB/build.log)"; git -C $WT reset -q --hard main; git -C $WT clean -fdq; exit 2; fi
+  if [ $need_fast = 1 ]; then cargo build --release --offline --target-dir $LAB/build/fast -p checks --features fast-math >$LAB/build-fast.log 2>&1 || { echo "FAST-BUILD-FAILS"; git -C $WT reset -q --hard main; git -C $WT clean -fdq; exit 2; }; fi
   for id in "$@"; do
     out=$($LAB/build/default/release/vpcheck check "$id" "${VERIF_TIER:-quick}" 2>&1); rc=$?
     case $rc in
@@ -35,6 +35,6 @@ case $cmd in
       *) echo "MACHINERY $id rc=$rc: $(printf '%s\n' "$out" | grep -m1 -E 'MACHINERY|error' | cut -c1-300)" ;;
     esac
   done
-  git -C $WT reset -q --hard main
+  git -C $WT reset -q --hard main; git -C $WT clean -fdq
   ;;
 esac
